@@ -40,6 +40,23 @@ var causeSegs = []seg{
 	{"a restored errdef cause is returned as it is", `return v1, nil`},
 }
 
+// the dispatcher of the binding rules and the JSON route (unmarshaler/converter.go), as Model/Convert.try_convert
+// transcribes them
+var dispatchSegs = []seg{
+	{"1. the key's own NewValue (type assertion) accepts the value as it is", `if v2, v3 := v0.NewValue(v1); v3 {return v2, true, nil}`},
+	{"2. a key of interface type stops here", `v4 := reflect.TypeOf(v0.ZeroValue().Value()) if v4 == nil {return nil, false, nil}`},
+	{"3. by the dynamic type of the decoded value: float64, int64, then map[string]any / []any through JSON; an error aborts", `switch v5 := v1.(type) {case float64: if v2, v3, v6 := tryConvertFloat64(v0, v5, v4); v6 != nil {return nil, false, v6} else if v3 {return v2, true, nil} case int64: if v2, v3, v6 := tryConvertInt64(v0, v5, v4); v6 != nil {return nil, false, v6} else if v3 {return v2, true, nil} case map[string]any, []any: if v2, v3, v6 := tryConvertViaJSON(v0, v1, v4); v6 != nil {return nil, false, v6} else if v3 {return v2, true, nil}}`},
+	{"4. same underlying kind (ConvertibleTo)", `v7 := reflect.TypeOf(v1) if v2, v3, v6 := tryConvertByUnderlyingType(v0, v1, v4, v7); v6 != nil {return nil, false, v6} else if v3 {return v2, true, nil}`},
+	{"5. pointer keys, then declined", `if v2, v3, v6 := tryConvertPointer(v0, v1, v4, v7); v6 != nil {return nil, false, v6} else if v3 {return v2, true, nil} return nil, false, nil`},
+}
+
+var viaJSONSegs = []seg{
+	{"JSON-decoded targets: pointer to struct, struct, map, slice, array (reflect.Array = 17 in the model); anything else declines", `v3 := v2.Kind() if v3 == reflect.Pointer {if v2.Elem().Kind() != reflect.Struct {return nil, false, nil}} else if v3 != reflect.Struct && v3 != reflect.Map && v3 != reflect.Slice && v3 != reflect.Array {return nil, false, nil}`},
+	{"a value encoding/json cannot marshal is ErrInternal", `v4, v5 := json.Marshal(v1) if v5 != nil {return nil, false, ErrInternal.Wrapf(v5, "failed to marshal value")}`},
+	{"a document that does not decode into the key's type is ErrInternal", `v6 := reflect.New(v2) if v5 := json.Unmarshal(v4, v6.Interface()); v5 != nil {return nil, false, ErrInternal.Wrapf(v5, "failed to unmarshal to %s", v2)}`},
+	{"the decoded value goes through the key's NewValue", `v7 := v6.Elem().Interface() v8, v9 := v0.NewValue(v7) return v8, v9, nil`},
+}
+
 // resolveKind as a decision tree
 var (
 	reRKDefault = regexp.MustCompile(`^if v1, v2 := r\.resolver\.\(\*resolver\.DefaultResolver\); v2 \{(.*)\} (v3, v2 := r\.resolver\.ResolveKind\(v0\) .*)$`)
@@ -105,6 +122,8 @@ func genUnmarshalSrc(repo string) string {
 	bodies, _ := alphaBodies(filepath.Join(repo, "unmarshaler"))
 	uT, uAll, uWhole := segTable("unmarshal", bodies["Unmarshaler.unmarshal"], unmarshalSegs)
 	cT, cAll, cWhole := segTable("unmarshalCause", bodies["Unmarshaler.unmarshalCause"], causeSegs)
+	dT, dAll, dWhole := segTable("tryConvertFieldValue", bodies["tryConvertFieldValue"], dispatchSegs)
+	jT, jAll, jWhole := segTable("tryConvertViaJSON", bodies["tryConvertViaJSON"], viaJSONSegs)
 	tree, tOK := rkTree(bodies["Unmarshaler.resolveKind"])
 	if !tOK {
 		problems = append(problems, "resolveKind: unrecognised shape: "+bodies["Unmarshaler.resolveKind"])
@@ -129,6 +148,11 @@ func genUnmarshalSrc(repo string) string {
 	sb.WriteString("(* Unmarshaler.unmarshalCause *)\n")
 	fmt.Fprintf(&sb, "Definition unmarshal_cause_groups : list (string * bool) := %s.\n", cT)
 	fmt.Fprintf(&sb, "Definition unmarshal_cause_is_exactly_these : bool := %v.\n\n", cAll && cWhole)
+	sb.WriteString("(* tryConvertFieldValue / tryConvertViaJSON (converter.go) *)\n")
+	fmt.Fprintf(&sb, "Definition dispatch_groups : list (string * bool) := %s.\n", dT)
+	fmt.Fprintf(&sb, "Definition dispatch_is_exactly_these : bool := %v.\n", dAll && dWhole)
+	fmt.Fprintf(&sb, "Definition via_json_groups : list (string * bool) := %s.\n", jT)
+	fmt.Fprintf(&sb, "Definition via_json_is_exactly_these : bool := %v.\n\n", jAll && jWhole)
 	fmt.Fprintf(&sb, "Definition definition_from_message_is_resolve_kind : bool := %v.\n", fromMsg)
 	fmt.Fprintf(&sb, "Definition entry_decodes_then_unmarshals : bool := %v.\n", entry)
 	return sb.String()
